@@ -175,6 +175,7 @@ def defects(rows):
     yield "no field at all", only_d, len(only_d)
     if ci:
         yield "check without description", put(ci[0], 1, ""), ci[0]
+        yield "check with a description of blanks only", put(ci[0], 1, "  "), ci[0]
         yield "unknown check type", put(ci[0], 2, "NoSuchCheck"), ci[0]
         yield "check rule naming an undeclared field", put(ci[0], 3, "nosuchfield" if rows[ci[0]][2] == "IsUnique" else "nosuchfield < 3"), ci[0]
         yield "check before the fields", rows[:fi[0]] + [rows[ci[0]]] + rows[fi[0]:], fi[0]
